@@ -74,7 +74,7 @@ class Laplace(DPMechanism):
         if not isinstance(sensitivity, Real):
             raise TypeError("Sensitivity must be numeric")
 
-        if sensitivity < 0:
+        if not sensitivity >= 0:
             raise ValueError("Sensitivity must be non-negative")
 
         return float(sensitivity)
